@@ -14,6 +14,7 @@ import PdfVerif.Lemmas.XrefScan
 import PdfVerif.Lemmas.XrefFind
 import PdfVerif.Lemmas.XrefHist
 import PdfVerif.Lemmas.XrefChain
+import PdfVerif.Lemmas.XrefLists
 
 namespace PdfVerif.Props.C02
 
@@ -353,6 +354,20 @@ example : (match tableLoad ([120, 114, 101, 102] ++ (LineEol.cr.bytes ++ (render
     | .error _ => false) = true := by decide
 
 
+
+/-- `SecLists` (hypothesis of `C02_written_rep`) DERIVED for classic tables: the table loaded from the
+text of ANY subsections (any grouping into runs, any order, `f` lines anywhere) answers like the writer's
+entry list as soon as both hold the same `(number, entry)` pairs, every number once — down to the bytes
+`PDFXRef.load` read. -/
+theorem C02_table_lists (pre post : Bytes) (eol : LineEol) (ee : EntEol) (subs : List Sub)
+    (ents : List (Nat × Entry)) (hf : ∀ sb ∈ subs, SubFits sb) (hpost : TrailerLine post)
+    (h : sameAssocB (flatSubs subs) (entsInt ents) = true) :
+    ∃ offs tp, tableLoad (pre ++ (eol.bytes ++ (renderTable eol ee subs ++ (kwTrailer ++ post)))) pre.length =
+      .ok (offs, tp) ∧ SecLists (.table offs) ents :=
+  ⟨_, _, C02_table_load pre post eol ee subs hf hpost, secLists_table subs ents h⟩
+
+/-- objects 5, 1 (file order of the body) against the table `0 2` (free head, object 1) + `5 1` -/
+example : sameAssocB (flatSubs exSubs) (entsInt [(5, ⟨none, 70, 3⟩), (1, ⟨none, 15, 0⟩)]) = true := by decide
 
 /-- From the written lines to `Rep`: a loaded classic table represents revision `r` as soon as
 the written subsections do (last in-use line per number leads to `r`'s value) — the hypothesis of
